@@ -702,6 +702,39 @@ def check_row_order_large(scn):
     return 2, True, None
 
 
+def check_row_order_long(scn):
+    """a long drift-free history: the accumulated reference (reference batch + every batch since) grows far beyond typical caps /
+    chunk sizes; reference and batches stored sorted vs row-permuted must give the same distances and decisions at every batch"""
+    from menelaus.data_drift import HDDDM, CDBD
+    name, seed, rows, nb = scn["det"], scn["seed"], scn["rows"], scn["batches"]
+    rng = np.random.RandomState(seed)
+    w = 1 if name == "CDBD" else 2
+    cols = ["a", "b"][:w]
+    ref = rng.randn(2 * rows, w)
+    ref = ref[np.argsort(ref[:, 0])]
+    batches = [rng.randn(rows, w) * (1 + 0.02 * i) for i in range(nb)]
+    batches = [b[np.argsort(b[:, 0])] for b in batches]
+    out = []
+    for permute in (False, True):
+        prng = np.random.RandomState(seed + 1)
+        pm = (lambda a: a[prng.permutation(len(a))]) if permute else (lambda a: a)
+        det = (CDBD if name == "CDBD" else HDDDM)(detect_batch=3, subsets=3)
+        det.set_reference(pd.DataFrame(pm(ref), columns=cols))
+        rec = []
+        for b in batches:
+            det.update(pd.DataFrame(pm(b), columns=cols))
+            rec.append((det.drift_state, float(det.current_distance), int(det.reference_n)))
+        out.append(rec)
+    for i, (x, y) in enumerate(zip(*out)):
+        if x[0] != y[0] or x[2] != y[2] or not math.isclose(x[1], y[1], rel_tol=1e-9, abs_tol=1e-12):
+            return nb, True, ("%s, batch %d of a drift-free history (%d reference rows accumulated): rows stored sorted give (state, distance, "
+                              "reference size) %r, the same rows permuted give %r" % (name, i + 1, x[2], x, y))
+        exp_n = 2 * rows + (i + 1) * rows
+        if all(r[0] is None for r in out[0][:i + 1]) and x[2] != exp_n:
+            return nb, True, "%s, batch %d without drift: reference size %d, reference and all batches since hold %d rows" % (name, i + 1, x[2], exp_n)
+    return nb, True, None
+
+
 def check_row_order_coarse(scn):
     """kdq-tree with a coarse minimum cell size (cutpoint_proportion_lbound = 0.1 ...) on wide-range features: the cells, the
     leaf divergence and the KdqTreeBatch decisions must not depend on the order of the rows of the reference / test batch"""
@@ -921,7 +954,7 @@ CHECKS = {
     "lifecycle": check_lifecycle, "clean_slate": check_clean_slate, "set_reference": check_set_reference,
     "rejected_call": check_rejected_call, "containers": check_containers, "mixed_width": check_mixed_width, "agreement_only": check_agreement_only,
     "unused_args": check_unused_args, "threshold": check_threshold, "warning_threshold": check_warning_threshold,
-    "nndvi_alpha": check_nndvi_alpha, "hdm_stdev": check_hdm_stdev, "row_order": check_row_order, "row_order_replay": check_row_order_replay, "row_order_large": check_row_order_large, "row_order_coarse": check_row_order_coarse, "nnps_order": check_nnps_order, "no_alias": check_no_alias, "no_alias_reref": check_no_alias_reref,
+    "nndvi_alpha": check_nndvi_alpha, "hdm_stdev": check_hdm_stdev, "row_order": check_row_order, "row_order_replay": check_row_order_replay, "row_order_large": check_row_order_large, "row_order_long": check_row_order_long, "row_order_coarse": check_row_order_coarse, "nnps_order": check_nnps_order, "no_alias": check_no_alias, "no_alias_reref": check_no_alias_reref,
 }
 
 REPLAY = '''import sys, warnings
